@@ -14,6 +14,8 @@ def worker(job, extra):
     else:
         spec = profiles.make_spec(job['profile'], job['seed'], tier)
     f = gen.features(spec)
+    if job.get('fault'):
+        return fault_run(job, spec, cap, wall)
     scope = profiles.PLANS[prop][1]
     if not scope(spec, f):
         return {'job': job, 'skipped': 'out_of_scope'}
@@ -26,6 +28,26 @@ def worker(job, extra):
                      'servers': [nd['servers'] for nd in spec['nodes']], 'qcap': [nd['qcap'] for nd in spec['nodes']],
                      'routing': {c: r['r'] for c, r in spec['routing'].items()}, 'tie': spec.get('tie'),
                      'run': spec['run'], 'events': res['events_judged']}
+    return res
+
+
+BAD = {'neg': -1.0, 'nan': float('nan'), 'str': 'x', 'floatbatch': 1.5, 'negbatch': -1, 'none': None}
+
+
+def fault_run(job, spec, cap, wall):
+    """C10 negative path: the k-th sample of one stream kind is invalid; the run must raise ValueError, not continue."""
+    from . import core
+    kind, k, badname = job['fault']
+    counter = [0, False]
+    spec = dict(spec); spec['tie'] = 'native'
+    tr, Q, status, crash = core.run_spec(spec, cap=cap, wall=wall, fault=(kind, k, BAD[badname], counter))
+    res = {'job': job, 'fault': True, 'injected': counter[1], 'status': status, 'crash': crash, 'viol': [], 'oracle_errors': [],
+           'events_judged': sum(1 for e in tr.events if e[0] == 'EVENT')}
+    if counter[1]:
+        ok = status == 'crash' and crash[0] == 'ValueError'
+        if not ok:
+            res['viol'].append(('C10', 'invalid_sample_not_rejected', repr((kind, k, badname, status, crash))))
+            res['spec'] = spec
     return res
 
 
@@ -43,9 +65,19 @@ def main(prop, tier, vseed, replay=None):
         with open(replay) as f:
             payload = json.load(f)
         jobs = [{'profile': 'replay', 'seed': payload['spec']['seed'], 'spec': payload['spec']}]
+        if payload.get('job', {}).get('fault'): jobs[0]['fault'] = payload['job']['fault']
     else:
         jobs = [{'profile': p, 'seed': s} for p, s in profiles.plan(prop, tier, vseed)]
         jobs += [{'profile': 'pinned', 'seed': k} for k in range(pinned.count(prop))]
+        if prop == 'C10':
+            import random as _r
+            rr = _r.Random(vseed)
+            nf = 150 if tier == 'quick' else 3000
+            for i in range(nf):
+                kind = rr.choice(['arr', 'srv', 'bat', 'ren', 'cct'])
+                bad = rr.choice(['floatbatch', 'negbatch', 'str', 'nan']) if kind == 'bat' else rr.choice(['neg', 'nan', 'str', 'none'])
+                prof = {'arr': 'c10', 'srv': 'c10', 'bat': 'c10', 'ren': 'c13', 'cct': 'c08'}[kind]
+                jobs.append({'profile': prof, 'seed': vseed * 1000003 + 700000 + i, 'fault': (kind, rr.randint(1, 12), bad)})
     runs, cap, wall, ties = profiles.BUDGET[tier]
     timeout = 900 if tier == 'quick' else 6 * 3600
     results, failures = runner.run_shards('ciwmon.tracecheck', jobs, {'prop': prop, 'tier': tier}, timeout)
@@ -56,11 +88,19 @@ def main(prop, tier, vseed, replay=None):
     ties_n = 0; ind_ties = 0; tie_choices = 0; events = 0
     seen_viol = set()
     known_lines = set()
+    softk = collections.Counter()
     for r in results:
         if 'harness_error' in r:
             harness_errors.append(r['harness_error'][-300:]); continue
         if r.get('skipped'):
             skipped += 1; continue
+        if r.get('fault'):
+            agg['C10.fault_runs'] += 1
+            if r['injected']: agg['C10.faults_injected'] += 1
+            if r['injected'] and not r['viol']: agg['C10.faults_rejected_with_ValueError'] += 1
+            for (p, code, det) in r['viol']:
+                viol_paths.append(runner.write_replay(prop, code, {'property': prop, 'code': code, 'witness': det, 'spec': r.get('spec'), 'job': r['job'], 'tier': tier}))
+            continue
         evaluated += 1
         status[r['status']] += 1
         events += r['events_judged']
@@ -71,6 +111,8 @@ def main(prop, tier, vseed, replay=None):
         ties_n += r['ties']; ind_ties += r['ind_ties']; tie_choices += r['tie_choices']
         if r['taint']:
             tainted[r['taint']] += 1
+        for kid in r.get('soft', []):
+            if prop in taint.open_findings().get(kid, {}).get('properties', []): softk[kid] += 1
         if r['status'] == 'crash' and not r['taint']:
             crashes[repr(r['crash'])] += 1
         fired = any(decide_value(r, k) > 0 for k in deciding)
@@ -95,6 +137,8 @@ def main(prop, tier, vseed, replay=None):
     for kid, n in tainted.items():
         if prop in open_k[kid]['properties']:
             known_lines.add('%s runs_cut=%d %s' % (kid, n, open_k[kid]['trigger']))
+    for kid, n in softk.items():
+        known_lines.add('%s runs_affected=%d %s' % (kid, n, open_k[kid]['trigger']))
     total_deciding = sum(agg.get(k, 0) if not k.startswith('kinds.') else kinds.get(k[6:], 0) for k in deciding)
     inconclusive = None
     if replay is None:
